@@ -139,6 +139,12 @@ GUARDS = [
 ]
 
 
+GUARD_CALLERS = {
+    "hugr.build.dfg.DfBase._fn_sig": ["hugr.build.dfg.DfBase.call", "hugr.build.dfg.DfBase.load_function"],
+    "hugr.ops._sig_port_type": ["hugr.ops.DataflowOp.port_type"],
+}
+
+
 def _exc_name(p) -> str:
     e = p.value
     if e is None:
@@ -252,7 +258,19 @@ def _cfg_fallback_rule(ctx, q):
 def r1_guards(ctx) -> None:
     prog = ctx.program
     from ..tmpl import T, tmatch
+    # a guard stated on a private helper is stated on the helper's public callers (helper seen through) when the helper is gone:
+    # renaming or moving it does not move the guard out of the builders' way
+    rows = []
     for qual, exc, alts, effects, what in GUARDS:
+        try:
+            ctx.locate(qual)
+            rows.append((qual, exc, alts, effects, what))
+        except Exception:
+            if qual not in GUARD_CALLERS:
+                raise
+            for q2 in GUARD_CALLERS[qual]:
+                rows.append((q2, exc, alts, effects, what))
+    for qual, exc, alts, effects, what in rows:
         fn, mod, cls = ctx.locate(qual)
         ps = ctx.paths(qual, supers=True)
         short = qual.split(".", 1)[1]
